@@ -24,7 +24,7 @@ class C11(Spec):
     groups = ["vpub"]
     title = "A feed is the newest-first merge of its sources, each item exactly once"
     oracle_filter = {"equals_model"}
-    rule = ("0..5 synthetic sources (lazy lists served in the chunks asked for) of 0..6 items with timestamps that are sorted, "
+    rule = ("0..5 synthetic sources (lazy lists served in the chunks asked for) of 0..6 items with timestamps (quarter-second units, so distinct stamps share whole seconds) that are sorted, "
             "unsorted, equal or missing (zero time); requests (position, size 0..8, start 0..3) where a position is the feed itself "
             "or the continuation returned by ANY earlier request, so the same position is harvested repeatedly and interleaved with "
             "others (position purity / slice aliasing of clone()). Exhaustive part: <= 3 sources x <= 2 items x 3 timestamps, two "
